@@ -26,13 +26,17 @@ def Atom.isNum : Atom → Bool
   | .int _ | .float _ => true
   | _ => false
 
+def Atom.isNull : Atom → Bool
+  | .null => true
+  | _ => false
+
 def Atom.sameKind (a b : Atom) : Bool := a.kindBit == b.kindBit
 
 /-- (i) the kind restriction a bound carries -/
 def boundAdmits (b : Bound) (a : Atom) : Bool :=
   match b.val with
   | .int _ | .float _ => a.isNum
-  | .null => if b.op == .ne then a != .null else a == .null
+  | .null => if b.op == .ne then !a.isNull else a.isNull
   | v => a.sameKind v
 
 /-- (ii) the comparison itself -/
